@@ -232,3 +232,55 @@ def check(ctx, rep: Report):
         rep.oblige("C05.FWD", f"mutate_attr[inplace=False,frozen={frozen}]", not bad, "; ".join(sorted(set(bad))[:2]))
         for b in sorted(set(bad)):
             rep.violate(Violation("C05.FWD", f"C05.FWD|mutate_attr|frozen={frozen}|{b[:60]}", f"mutate_attr: {b}: with_<a>(v) must yield a new instance carrying the change", "", "mutate_attr"))
+
+
+    # ---- PIPE: attribute transforms are applied one after the other (each sees the effects of the previous one,
+    # e.g. invalidation), exactly like a chain of single transform_<a> calls
+    rep.rules["C05.PIPE"] = "mutate_value: transform(k) is evaluated after the assignment of transform(k-1) (interleaved, not batched)"
+    fi = ctx.p.find_function("mutate_value")
+    loops = [n for n in walk_own(fi.node) if isinstance(n, ast.For) and "attr_transforms" in ast.unparse(n.iter)]
+    bad = []
+    if not loops:
+        bad.append("no loop over attr_transforms")
+    else:
+        body = ast.unparse(loops[-1])
+        calls = [n for n in ast.walk(loops[-1]) if isinstance(n, ast.Call) and ast.unparse(n.func) in ("setattr",)]
+        tcalls = [n for n in ast.walk(loops[-1]) if isinstance(n, ast.Call) and isinstance(n.func, ast.Name) and "transform" in n.func.id]
+        if not calls or not tcalls:
+            bad.append("the transform and its assignment are no longer in the same loop iteration (all transforms are evaluated against the pre-call state)")
+        others = [n for n in walk_own(fi.node) if isinstance(n, (ast.DictComp, ast.ListComp)) and "attr_transforms" in ast.unparse(n)]
+        if others:
+            bad.append("attribute transforms are evaluated in a batch before any assignment")
+    rep.oblige("C05.PIPE", "mutate_value attr_transforms loop", not bad, "; ".join(bad))
+    for b in bad:
+        rep.violate(Violation("C05.PIPE", f"C05.PIPE|{b[:50]}", f"mutate_value: {b}: transform(a=f, b=g) differs from transform_a(f).transform_b(g) when b depends on a", f"{fi.module.relpath}:{fi.node.lineno}", "mutate_value"))
+    loops = [n for n in walk_own(fi.node) if isinstance(n, ast.For) and ast.unparse(n.iter).startswith("attrs.items")]
+    ok = bool(loops) and any(isinstance(n, ast.Call) and ast.unparse(n.func) == "setattr" for n in ast.walk(loops[0]))
+    rep.oblige("C05.PIPE", "mutate_value attrs loop", ok)
+    if not ok:
+        rep.violate(Violation("C05.PIPE", "C05.PIPE|attrs", "mutate_value no longer assigns keyword attributes one by one in the order given", f"{fi.module.relpath}:{fi.node.lineno}", "mutate_value"))
+
+    # ---- RESETALL: reset() resets every attribute; an attribute with nothing to reset does not stop the others
+    rep.rules["C05.RESETALL"] = "ResetMethod.reset: AttributeError is handled per attribute (inside the loop)"
+    rh = ctx.helpers.get("ResetMethod.reset")
+    if rh is None:
+        raise AnalysisError("C05.RESETALL: ResetMethod.reset not found")
+    fn = rh.impl.node
+    loops = [n for n in walk_own(fn) if isinstance(n, ast.For)]
+    bad = []
+    if not loops:
+        bad.append("no loop over the managed attributes")
+    else:
+        loop = loops[0]
+        if "attrs" not in ast.unparse(loop.iter):
+            bad.append(f"iterates `{ast.unparse(loop.iter)}` rather than the managed attributes")
+        inner = [t for t in ast.walk(loop) if isinstance(t, ast.Try) and any("AttributeError" in ast.unparse(h.type or ast.Constant(0)) for h in t.handlers)]
+        outer = [t for t in walk_own(fn) if isinstance(t, ast.Try) and any(x is loop for x in ast.walk(t))]
+        dels = [n for n in ast.walk(loop) if isinstance(n, ast.Call) and ast.unparse(n.func) == "delattr"]
+        if not dels:
+            bad.append("attributes are not reset through delattr")
+        if dels and not inner:
+            bad.append("AttributeError is " + ("handled around the whole loop: the first attribute with nothing to reset silently stops the reset of all later attributes" if outer else "not handled: one unset attribute aborts reset()"))
+    rep.oblige("C05.RESETALL", "ResetMethod.reset", not bad, "; ".join(bad))
+    for b in bad:
+        rep.violate(Violation("C05.RESETALL", f"C05.RESETALL|{b[:60]}", f"ResetMethod.reset: {b}", f"{rh.impl.module.relpath}:{fn.lineno}", "ResetMethod.reset"))
